@@ -12,6 +12,18 @@
 #define NB 16
 #endif
 unsigned char in_file[NB], in_len;
+#ifdef STRUCTURED
+/* structured malformed input: a code file built from records whose fields are NOT constrained
+   (granularity/segment bytes 0..255, zero-length records, any CPU id), truncated at an arbitrary length */
+#ifndef CF_R
+#define CF_R 2
+#endif
+#ifndef CF_L
+#define CF_L 2
+#endif
+#include "cfbuild.h"
+unsigned char in_trunc;
+#endif
 
 static int exit_code = -1;
 static void vexit(int code);
@@ -67,12 +79,24 @@ static void vexit(int code)
 
 void harness(void)
 {
-  LOADA(in_file, NB); LOAD(in_len); LOAD(in_famknown);
+  LOAD(in_famknown);
+#ifdef STRUCTURED
+  {
+    int r;
+    cf_load(); LOAD(in_trunc);
+    for (r = 0; r < CF_R; r++) { ASSUME(in_rkind[r] <= 4); ASSUME(in_rlen[r] <= CF_L); }
+    cf_build();
+    ASSUME(in_trunc <= cf_size);
+    src.kind = VF_READ; src.data = cf_buf; src.size = in_trunc; src.cap = CF_CAP;
+  }
+#else
+  LOADA(in_file, NB); LOAD(in_len);
   ASSUME(in_len <= NB);
 #ifdef GOOD_MAGIC
   in_file[0] = 0x89; in_file[1] = 0x14;
 #endif
   src.kind = VF_READ; src.data = in_file; src.size = in_len; src.cap = NB;
+#endif
   targ.kind = VF_WIT; targ.pos = targ.size = 0; targ.wit_off = 0; targ.wit_set = 0;
   QuietMode = True; DoFilter = False; FilterCnt = 0;
   errno = 0;
